@@ -58,7 +58,7 @@ C19 = dict(
         _rapid('^TestC19Concurrent$', 600, 2, 300, gomaxprocs=4, shrinktime='6s'),
     ]),
     thorough=dict(engines=[
-        _rapid('^TestC19FileSystemStops$', 600, 3, 1200, gomaxprocs=4),
-        _rapid('^TestC19Concurrent$', 6000, 3, 1200, gomaxprocs=4),
+        _rapid('^TestC19FileSystemStops$', 800, 3, 1500, gomaxprocs=4),
+        _rapid('^TestC19Concurrent$', 8000, 3, 1500, gomaxprocs=4),
     ]),
 )
